@@ -133,6 +133,11 @@ def run(ctx):
     for s in ss[: (10 if ctx.quick else 60)]:
         dim = len(s["req"]["x"])
         ks = [rng.getrandbits(53) for _ in range(dim)]
+        if len(rreqs) % 4 == 2:
+            # a generator may return exactly 0.0 (probability 2^-53 per draw): put it where 0.0 is a harmless input (an edge-choice
+            # coordinate) and into a Box-Muller angle slot
+            ks[0] = 0
+            ks[-1] = 0
         xs = [k * 2.0 ** -53 for k in ks]
         rr = dict(s["req"], op="rng", k=ks + [rng.getrandbits(53) for _ in range(4)]); del rr["x"]
         rreqs.append(rr); rreqs.append(dict(s["req"], x=[f2b(x) for x in xs])); rinfo.append((s, dim))
